@@ -381,8 +381,17 @@ def shard_status(ctx, facts):
             okv = "Processor::get_status" in str(flow.expr_of(b, r["ops"][0], max_depth=25))
     ctx.ob("FLOW-shard-status", "ok-is-own-status", okv, "Ok(own status)" if okv else "shard_status does not return its own status on agreement", site_of(b))
     dom = b.dominators()
-    ne = [(tgt, f) for tgt, f in flow.edge_guards(b) if f[0] in ("true", "Ne") and ("PartialEq::ne" in str(f[1]) or f[0] == "Ne") and "get_status" in str(f)]
-    okg = bool(ne) and flow.dominates(dom, ne[0][0], bb)
+    # the edge on which the two statuses differ: true edge of `!=` / PartialEq::ne, false edge of `==` / PartialEq::eq
+    ne = [(tgt, f) for tgt, f in flow.edge_guards(b) if "get_status" in str(f) and (
+        (f[0] == "Ne") or (f[0] == "true" and "PartialEq::ne" in str(f[1])) or (f[0] == "false" and "PartialEq::eq" in str(f[1])))]
+    okg = bool(ne) and any(flow.dominates(dom, tgt, bb) for tgt, f in ne)
+    # and the Ok(own status) only on the other edge
+    eq = [(tgt, f) for tgt, f in flow.edge_guards(b) if "get_status" in str(f) and (
+        (f[0] == "Eq") or (f[0] == "false" and "PartialEq::ne" in str(f[1])) or (f[0] == "true" and "PartialEq::eq" in str(f[1])))]
+    for bb2, idx2, st2 in b.iter_assigns():
+        r = st2["r"]
+        if st2["p"] == [0] and r["k"] == "agg" and r.get("adt") == "std::result::Result" and r["vn"] == "Ok":
+            okg = okg and any(flow.dominates(dom, tgt, bb2) for tgt, f in eq)
     ctx.ob("FLOW-shard-status", "error-iff-different", okg, "the error is raised exactly when the statuses differ" if okg else "DifferentStatus is not guarded by `request.status != own status`", site_of(b, bb, idx))
     # readers of the error
     n = 0
